@@ -9,10 +9,12 @@ package csr
 //vsym:replay same-harness
 //vsym:expect-cover C14.fc.ok C14.fc.too-few C14.fc.too-many C14.fc.bad-policy C14.ok-json C14.ok-legacy C14.err-message C14.err-logname C14.err-ip C14.err-version C14.default-version C14.json-null
 //vsym:bound H14_forcecommand: 0..8 tokens spread over the argument vector in three ways (one per argument, all in one argument, first two joined); the second-to-last token 4 symbolic non-space bytes (NONS, NSOK or anything else), the others 1 symbolic non-space byte
-//vsym:bound H14_newreqparam: SSH_ORIGINAL_COMMAND either JSON (decoder outcome: arbitrary attributes with 0..3-byte symbolic version, 0..1-byte user/host; or null) or legacy text built from 0..2 tokens (req, SSHClientVersion, HardKey, a 1-byte symbolic key) with 0- or 3-byte symbolic values; LOGNAME 0..2 symbolic bytes; SSH_CONNECTION 0..2 fields of 1 symbolic byte; argv from {3 valid tokens, split tokens, too few, bad policy}; the message shapes and the environment shapes are swept one factor at a time (NewReqParam reads them independently)
+//vsym:bound H14_newreqparam: SSH_ORIGINAL_COMMAND either JSON (decoder outcome: arbitrary attributes with 0..3- or 7-byte symbolic version, 0..1-byte user/host; or null) or legacy text built from 0..2 tokens (req, SSHClientVersion, HardKey, a 1-byte symbolic key) with 0- or 3-byte symbolic values; LOGNAME 0..2 symbolic bytes; SSH_CONNECTION 0..2 fields of 1 symbolic byte; argv from {3 valid tokens, split tokens, too few, bad policy}; the message shapes and the environment shapes are swept one factor at a time (NewReqParam reads them independently)
 //vsym:assume encoding/json is modelled by its contract (see C15); net.ParseIP is an uninterpreted predicate of its argument; crypto/rand.Read yields arbitrary bytes; the regexp ^\d+\.\d+$ is decided by a byte-class encoding
 
 import (
+	"bytes"
+	crand "crypto/rand"
 	"encoding/json"
 	"errors"
 	"net"
@@ -151,7 +153,8 @@ func H14_newreqparam() {
 	switch kind {
 	case 0:
 		m14JSONOutcome = 2
-		m14Obj = &message.Attributes{IfVer: 7, SSHClientVersion: vNondetString("version", vChoose(4, "version-len")),
+		vlens := []int{0, 1, 2, 3, 7} // 7: room for a five-digit component (65536 and above must be refused)
+		m14Obj = &message.Attributes{IfVer: 7, SSHClientVersion: vNondetString("version", vlens[vChoose(len(vlens), "version-len")]),
 			Username: vNondetString("user", vChoose(2, "user-len")), Hostname: vNondetString("host", vChoose(2, "host-len")), HardKey: vNondetBool("hardkey")}
 		declaredVersion, declaredUser, declaredHost = m14Obj.SSHClientVersion, m14Obj.Username, m14Obj.Hostname
 		cmd = "{\"model\":1}"
@@ -214,6 +217,9 @@ func H14_newreqparam() {
 		conn += f
 	}
 	m14IPValid = vNondetBool("ip-valid")
+	if nf == 0 {
+		vAssume(!m14IPValid) // the empty string is not an IP address
+	}
 	if vIsNative() {
 		// natively the predicate is the real parser: pick a text with the same verdict
 		if m14IPValid {
@@ -251,6 +257,13 @@ func H14_newreqparam() {
 		return ""
 	}
 	rand0 := len(m14Rand)
+	if vIsNative() {
+		// the transaction id's random bytes: natively crypto/rand.Reader is
+		// replaced by a reader delivering the counterexample's bytes
+		saved := crand.Reader
+		crand.Reader = bytes.NewReader(append(vNondetBytes("rand", 5), make([]byte, 64)...))
+		defer func() { crand.Reader = saved }()
+	}
 	var p *ReqParam
 	var err error
 	crashed := vCatch(func() { p, err = NewReqParam(env, func() []string { return argv }) })
@@ -303,10 +316,9 @@ func H14_newreqparam() {
 		vAssert(dot > 0 && dot < len(v)-1, "C14.version-has-major-dot-minor-form")
 		if dot > 0 && dot < len(v)-1 {
 			vAssert(vAnd(h14Digits(v[:dot]), h14Digits(v[dot+1:])), "C14.version-has-major-dot-minor-form")
-			if len(v) == 3 {
-				want := version.New(uint16(v[0]-'0'), uint16(v[2]-'0'))
-				vAssert(p.SSHClientVersion == want, "C14.version-equals-the-declared-one")
-			}
+			maj, min := h14Decimal(v[:dot]), h14Decimal(v[dot+1:])
+			vAssert(vAnd(maj <= 65535, min <= 65535), "C14.version-components-fit-16-bits")
+			vAssert(p.SSHClientVersion == version.New(uint16(maj), uint16(min)), "C14.version-equals-the-declared-one")
 		}
 	}
 	// transaction id: fresh 10 hex digits from this call's randomness
@@ -333,6 +345,15 @@ func H14_newreqparam() {
 	} else {
 		vReach("C14.ok-legacy")
 	}
+}
+
+// h14Decimal: the value of a decimal digit string (at most 6 digits)
+func h14Decimal(s string) uint32 {
+	var v uint32
+	for i := 0; i < len(s); i++ {
+		v = v*10 + uint32(s[i]-'0')
+	}
+	return v
 }
 
 func h14Hex(n byte) byte {
